@@ -201,6 +201,13 @@ def robust(F, R):
     oks = [s for s in acq.ok_exit_sites()]
     incs = acq.calls(inc_pat)
     dom(R, acq, incs, oks, 'increment<Ok(n)', 'an index is handed out only after its generation bump was accepted')
+    for o in oks:
+        conds = [sym_nstr(sym(acq, acq.blocks[b]['t'][1])) for (b, tgt) in lib.guard_switches(acq, o)]
+        ok_ = any('increment_generation_counter(' in c and ('18446744073709551615' in c or 'LOCK_INDICATOR' in c) and '==' in c for c in conds)
+        R.ob('ONLY-UNDER', 'ONLY-UNDER::%s::Ok(n)-only-if-increment-not-locked' % fnkey(acq), ok_,
+             'Ok(n) is returned under %s ; required a test of the increment result against GENERATION_COUNTER_LOCK_INDICATOR (after the last release locked the set no acquire may succeed)' % [c[:110] for c in conds if 'increment' in c or 'LOCK' in c or '1844' in c], o.where, acq)
+        locked = lib.agg_sites(acq, r'UniqueIndexSetAcquireFailure$', 'IsLocked')
+        R.ob('FLOOR', 'floor::%s::IsLocked exits' % fnkey(acq), len(locked) >= 2, '%d IsLocked refusals (before the scan and after a bump that hit the lock)' % len(locked), acq.file, acq)
     ord_floor(R, acq, r'^self\.generation_counter$', 'load', 0, 'A', 'SYNC POINT: generation read before the cell scan')
 
 
